@@ -34,6 +34,7 @@ import re
 
 
 def run(db, chk):
+    midx_high_bit_rule(db, chk)
     for n, want in SPEC_INT.items():
         c = db.const(P + n)
         chk.ob("spec-constant", n, c.get("v") == want, "is %r, format says %r" % (c.get("v"), want), "%s:%d" % (c["file"], c["line"]), key="spec-constant|" + n)
@@ -68,3 +69,24 @@ def run(db, chk):
     from props import _fan
     for pat, label in ((r"^gix_pack::index::access::lookup$", "index::access::lookup"), (r"^gix_pack::index::access::lookup_prefix$", "index::access::lookup_prefix")):
         _fan.fan_bounds(chk, db.one(pat), label)
+
+
+def midx_high_bit_rule(db, chk):
+    """multi-pack index writer: an offset entry may carry the high bit (= index into the large-offsets chunk) only if that chunk is written. The
+    reader interprets the bit only when the chunk exists, so in offsets::write the `| HIGH_BIT` must lie behind the true edge of a test of a boolean
+    PARAMETER (whether large offsets are needed), not only behind the comparison with the 31-bit threshold."""
+    from gx.flow import Flow
+    f = db.one(r"^gix_pack::multi_index::chunk::offsets::write$")
+    fl = Flow(f)
+    ors = [(bi, ln) for bi, si, pl, rv, ln, mc in f.assigns() if rv[0] == "bin" and rv[1] == "BitOr" and any(str(o.get("def", "")).endswith("::HIGH_BIT") for o in (rv[2], rv[3]) if isinstance(o, dict))]
+    chk.floor("multi_index offsets::write: `| HIGH_BIT`", len(ors), 1)
+    bool_params = [i for i in range(1, f.argc + 1) if f.locals[i] == "bool"]
+    edges = set()
+    for bi in f.reachable_blocks():
+        t = f.term(bi)
+        if t[0] == "switch" and "p" in t[1] and any(r[0] == "arg" and r[1] in bool_params for r in fl.roots(t[1], stop_named=False)):
+            edges |= {(bi, x) for v, x in t[2] if v != 0} | ({(bi, t[3])} if all(v == 0 for v, x in t[2]) else set())
+    for bi, ln in ors:
+        chk.ob("midx-high-bit-only-with-large-offsets-chunk", "offsets::write `| HIGH_BIT`@%d" % ln, bool(edges) and fl.cut_off([bi], edges),
+               "the high bit is set whenever an offset exceeds 31 bits, independent of whether a large-offsets chunk is written: with the largest offset between 2 GiB and 4 GiB there is no such chunk and readers take the value literally (0x8000_0000 + n)",
+               "%s:%d" % (f.file, ln), key="midx-high-bit|offsets::write")
